@@ -462,7 +462,11 @@ class Summariser:
             out = []
             for s, t in self.branch(first, st, substituted):
                 keep_first = t if isinstance(e.op, ast.Or) else not t
-                out.extend(self.values(first if keep_first else rest, s, substituted))
+                if keep_first and _is_boolish(first if substituted else self.subst(first, st[0])):
+                    # the value of a boolean expression known to be true / false is True / False
+                    out.append((s, ast.Constant(value=bool(t))))
+                else:
+                    out.extend(self.values(first if keep_first else rest, s, substituted))
             return out
         if isinstance(e, ast.IfExp):
             out = []
@@ -814,6 +818,21 @@ def _as_load(t):
 
 CONSUMERS = {"join", "all", "any", "sum", "set", "list", "tuple", "sorted", "min", "max", "frozenset", "extend", "update", "And", "Or",
              "smt_or", "smt_and", "dict", "Concat", "concat"}
+
+
+def _is_boolish(e) -> bool:
+    """syntactically a bool: comparison, not, isinstance/any/all/callable/hasattr call, and/or of those"""
+    if isinstance(e, ast.Compare):
+        return True
+    if isinstance(e, ast.UnaryOp) and isinstance(e.op, ast.Not):
+        return True
+    if isinstance(e, ast.Constant) and isinstance(e.value, bool):
+        return True
+    if isinstance(e, ast.Call) and isinstance(e.func, ast.Name) and e.func.id in ("isinstance", "issubclass", "any", "all", "callable", "hasattr", "bool", "is_bv_value", "is_bv", "is_bool", "eq"):
+        return True
+    if isinstance(e, ast.BoolOp):
+        return all(_is_boolish(v) for v in e.values)
+    return False
 
 
 class _Canon(ast.NodeTransformer):
